@@ -74,6 +74,7 @@ def r1(ctx):
     ctx.functions.update(parent)
     screen_classes = set(R.subclasses("batchie.data.ScreenBase"))
     hits = []
+    deferred = []
     for q in sorted(parent):
         f = R.funcs[q]
         if f.class_q in screen_classes and f.name in FORBIDDEN_LOADS:
@@ -103,7 +104,34 @@ def r1(ctx):
                 if any(t[1] in screen_classes for t in ts):
                     what = f"reflective access `{U(n)}` on a screen"
             if what:
-                hits.append((q, what))
+                # inside a lambda that is only STORED (an element of a table of accessors, a constructor argument): the load happens when
+                # and if someone calls it - which of a table's accessors a reader invokes is not followed here
+                par = enclosing_map(f.node)
+                stored = False
+                node_ = n
+                while node_ is not None and node_ is not f.node:
+                    p_ = par.get(node_)
+                    if isinstance(node_, ast.Lambda):
+                        if isinstance(p_, ast.keyword):
+                            gp_ = par.get(p_)
+                            direct = isinstance(gp_, ast.Call) and (call_name(gp_) in ("sorted", "min", "max") or attr_tail(gp_) == "sort")
+                        else:
+                            direct = isinstance(p_, ast.Call) and node_ in p_.args and call_name(p_) in ("sorted", "map", "filter", "min", "max")
+                        stored = not direct
+                        break
+                    node_ = p_
+                (deferred if stored else hits).append((q, what))
+    if deferred:
+        # a getter reached only because a stored accessor mentions its attribute: every real load is reported at its own load site
+        D = {q for q, _ in deferred}
+        moved = [(q, w) for q, w in hits if R.funcs[q].class_q in screen_classes and R.funcs[q].name in FORBIDDEN_LOADS
+                 and len(T.chain(parent, q)) > 1 and T.chain(parent, q)[1] in D]
+        hits = [h for h in hits if h not in moved]
+        deferred += moved
+    if deferred and not hits:
+        q, what = deferred[0]
+        raise AnalysisError(f"{R.funcs[q].site()}: {what} inside a stored lambda (a table of accessors); whether a function on the scoring / selection path "
+                            f"invokes it is not followed by this rule ({len(deferred)} such load(s))")
     if hits:
         seen = set()
         for q, what in hits:
